@@ -7,7 +7,8 @@ writes an ndjson trace that spec/trace/Trace_Pipeline judges (clauses (a)-(e) of
 
 Trace of one scenario (all times are integers; jet1090's wall-clock stamps in ms / whole seconds
 relative to the second in which the scenario started, the driver's own clock in ms, monotonic):
-  {"e":"scenario","sc":k,"w":W,"nrx":N,"df_present","df_list","ac_present","ac_list","serials":[rx,..]}
+  {"e":"scenario","sc":k,"w":W,"nrx":N,"df_present","df_list","ac_present","ac_list","serials":[rx,..],
+   "junk":n (stdout lines that are not records),"died":bool (jet1090 ended before it was terminated)}
   {"e":"sent","rx":r,"pos":p,"fr":[un-escaped Beast frame],"dec":bool,"at":ms}     at = -1: never written
   {"e":"wire","rx":r,"bytes":[...]}                                                  what was written
   {"e":"rec","frame":[..],"t":ms,"ts":s,"df":n,"icao":n,"seen":ms,"m":[{"rx":r,"id":[6 bytes],"t":ms},..]}
@@ -219,12 +220,15 @@ def run_one(exe, sc, workdir, *, skew_ms=SKEW_MS, barrier_timeout=15.0):
     th.start()
     res = {"cmd": cmd, "s0": s0, "error": None}
     try:
-        try:
-            for r in rxs:
-                r.accept(20)
-        except (socket.timeout, OSError):
-            res["error"] = "jet1090 did not connect to the loopback servers"
-            return res
+        for r in rxs:
+            t_acc = time.monotonic() + 30
+            while r.conn is None:
+                try:
+                    r.accept(0.5)
+                except (socket.timeout, OSError):
+                    if proc.poll() is not None or time.monotonic() > t_acc:
+                        res["error"] = "jet1090 did not connect to the loopback servers"
+                        return res
         w = sc["w"]
         gap = dict(GAP_MS, mid=skew_ms + 30, far=w + skew_ms + 60)
         modes = sc["chunk"]
@@ -277,10 +281,12 @@ def run_one(exe, sc, workdir, *, skew_ms=SKEW_MS, barrier_timeout=15.0):
             except Exception:
                 tab = None
                 break
-            time.sleep(0.1)
-            with lock:
-                n2 = len(lines)
-            if n1 == n2:
+            quiet = True
+            for _ in range(2):                 # no new line for two consecutive 0.1 s periods
+                time.sleep(0.1)
+                with lock:
+                    quiet = quiet and len(lines) == n1
+            if quiet:
                 stable = True
                 break
         with lock:
@@ -293,6 +299,7 @@ def run_one(exe, sc, workdir, *, skew_ms=SKEW_MS, barrier_timeout=15.0):
             res["sensors"] = None
         return res
     finally:
+        res["died"] = proc.poll() is not None        # jet1090 ended by itself (crash): data, judged by the spec
         try:
             proc.send_signal(signal.SIGTERM)
             proc.wait(timeout=3)
@@ -363,7 +370,7 @@ def events_of(k, sc, res):
     ev = [{"e": "scenario", "sc": k, "w": sc["w"], "nrx": n,
            "df_present": sc["df_present"], "df_list": sc["df_list"],
            "ac_present": sc["ac_present"], "ac_list": sc["ac_list"],
-           "serials": [serial_rx[s] for s in serial_rx], "junk": junk}]
+           "serials": [serial_rx[s] for s in serial_rx], "junk": junk, "died": bool(res.get("died"))}]
     for r, frames in enumerate(res["sent"], start=1):
         for p, (fr, dec, at) in enumerate(frames, start=1):
             ev.append({"e": "sent", "rx": r, "pos": p, "fr": fr, "dec": bool(dec), "at": at})
@@ -386,15 +393,19 @@ def events_of(k, sc, res):
 
 # ------------------------------------------------------------------ generation (G) and judging (V)
 
-def generate(n, seed, *, tier="quick", maxrx=2, maxsteps=8, workdir=None):
-    """n scenarios from spec/gen/Gen_Pipeline (TLC simulation, reproducible from the seed)."""
+def generate(n, seed, *, tier="quick", maxrx=2, maxsteps=8, workdir=None, fixed=True):
+    """The fixed scenarios of spec/gen/Gen_Pipeline followed by n random ones (TLC simulation,
+    reproducible from the seed)."""
     r = core.tlc_ok("gen/Gen_Pipeline", cfg="gen/Gen_Pipeline.cfg", simulate=n, depth=3 * maxsteps + maxrx + 12, seed=seed,
-                    env={"GEN_MAXRX": maxrx, "GEN_MAXSTEPS": maxsteps, "GEN_TIER": 0 if tier == "quick" else 1},
+                    env={"GEN_MAXRX": maxrx, "GEN_MAXSTEPS": maxsteps, "GEN_TIER": 0 if tier == "quick" else 1,
+                         "GEN_FIXED": 1 if fixed else 0},
                     xmx="3g", timeout=600, workdir=workdir)
     scs = [s for s in r.printed_json() if isinstance(s, dict) and "steps" in s]
-    if len(scs) < n:
-        raise core.ToolError(f"Gen_Pipeline printed {len(scs)} scenarios, expected {n}")
-    return scs[:n], r
+    nfix = sum(1 for s in scs if "steps" in s) - n if fixed else 0
+    if len(scs) < n or nfix < 0 or (fixed and nfix == 0):
+        raise core.ToolError(f"Gen_Pipeline printed {len(scs)} scenarios, expected {n} random ones"
+                             + (" and the fixed ones" if fixed else ""))
+    return scs[:n + nfix], r
 
 
 def judge(events, workdir, name="pipe"):
@@ -413,11 +424,14 @@ def judge(events, workdir, name="pipe"):
     return out, r, info
 
 
-def run_scenarios(run, scenarios, *, parallel=4, workdir=None, name="pipe", retries=2):
-    """Run the scenarios against the real jet1090, judge them with Trace_Pipeline.
+def run_scenarios(run, scenarios, *, parallel=4, workdir=None, name="pipe", retries=2, stats=None):
+    """Run the scenarios (as printed by Gen_Pipeline) against the real jet1090 and judge the recorded
+    runs with Trace_Pipeline.
 
-    Returns (list of (clause, replay), stats).  A scenario whose run could not be set up (jet1090 did
-    not connect, HTTP port taken) is retried; it is a tool error if it never works."""
+    Returns the list of (clause, replay) of the rejected scenarios (empty: everything conformed); the
+    caller reports them with run.report({"clause": clause}, replay).  `stats`, if given, is filled with
+    measured counts.  A scenario whose run could not be set up (jet1090 did not connect, HTTP port
+    taken) is retried; it is a tool error if it never works."""
     exe = core.build_jet()
     workdir = workdir or os.path.join(run.work, "e2e")
     os.makedirs(workdir, exist_ok=True)
@@ -428,9 +442,9 @@ def run_scenarios(run, scenarios, *, parallel=4, workdir=None, name="pipe", retr
         for attempt in range(retries + 1):
             res = run_one(exe, sc, os.path.join(workdir, f"{name}-sc{k}-{attempt}"))
             last = res
-            if res.get("error") is None and res.get("http_ok"):
+            if res.get("died") or (res.get("error") is None and res.get("http_ok")):
                 break
-        if last.get("error") is not None:
+        if last.get("error") is not None and not last.get("died"):
             raise core.ToolError(f"scenario {k}: {last['error']}")
         return last
 
@@ -444,14 +458,16 @@ def run_scenarios(run, scenarios, *, parallel=4, workdir=None, name="pipe", retr
         events += events_of(k, sc, res)
     t0 = time.time()
     rejected, r, info = judge(events, workdir, name)
-    stats = {"scenarios": len(scenarios), "events": len(events),
+    if stats is None:
+        stats = {}
+    stats.update({"scenarios": len(scenarios), "events": len(events),
              "records": sum(1 for e in events if e["e"] == "rec"),
              "receptions_sent": sum(1 for e in events if e["e"] == "sent"),
              "receptions_observed": sum(len(e["m"]) for e in events if e["e"] == "rec"),
              "tables_stable": sum(1 for e in events if e["e"] == "table" and e["stable"]),
              "wall_run_s": round(wall_run, 1), "wall_judge_s": round(time.time() - t0, 1),
              "selfcheck": [l for l in info if "SELFCHECK" in l],
-             "strict": [l for l in info if "STRICT" in l], "tlc": r}
+             "strict": [l for l in info if "STRICT" in l], "tlc": r})
     out = []
     for line, clause in rejected:
         k = first_line.get(line)
@@ -463,4 +479,4 @@ def run_scenarios(run, scenarios, *, parallel=4, workdir=None, name="pipe", retr
             b += 1
         out.append((clause, {"scenario": scenarios[k], "clause": clause, "cmd": results[k].get("cmd"),
                              "events": events[a:b + 1]}))
-    return out, stats
+    return out
